@@ -8,7 +8,9 @@
     igris/shell/vtermxx.cpp      igris::vtermxx::newdata (same, returns right after execute)
     igris/defs/vt100.h           vt100_left, VT100_* strings
   after the `fix:` commits of branch fix-C15 (newdata clamp, OVERFLOW return,
-  lastsize = cursor, CR LF pairing, escape state reset by Ctrl-C).
+  lastsize = cursor, CR LF pairing, escape state reset by Ctrl-C; extension:
+  unsigned int history indices, linecpy with maxlen 0, newdata with a negative
+  length).
 
   Memory: every buffer is a `List Byte`; every store / memmove / memcpy /
   memset / strlen is index-checked against the length of the object and sets
@@ -144,6 +146,25 @@ def newdata (s : Sline) (data : List Byte) (n : Nat) : Sline × Nat :=
   ({ s with buf := w.1, cursor := s.cursor + n, len := s.len + n,
             fault := s.fault || m.2 || w.2 || neg || decide (s.len < s.cursor) }, n)
 
+/-- `sline_newdata(sl, data, len)` with the `int len` exactly as the caller gives
+it (negative, zero, or smaller than the data), after `fix: sline_newdata treats a
+negative length as 0`: clamp to `sline_avail - 1`, then a negative value (a
+negative argument, or a negative limit when `cap = 0`) becomes 0.  `cap - len`
+is computed in `Int` (the operands are small; `(int)` of the unsigned difference). -/
+def newdataI (s : Sline) (data : List Byte) (n : Int) : Sline × Int :=
+  let avail : Int := (s.cap : Int) - (s.len : Int)
+  let n := if n > avail - 1 then avail - 1 else n
+  let n := if n < 0 then 0 else n
+  let k := n.toNat
+  let m := if s.cursor ≠ s.len then mmove s.buf (s.cursor + k) s.cursor (s.len - s.cursor)
+           else (s.buf, false)
+  let w := mcpy m.1 s.cursor data 0 k
+  ({ s with buf := w.1, cursor := s.cursor + k, len := s.len + k,
+            fault := s.fault || m.2 || w.2 || decide (s.len < s.cursor) }, n)
+
+/-- `igris::sline::clear`: every byte of the storage becomes 0 (len / cursor stay) -/
+def clear (s : Sline) : Sline := { s with buf := List.replicate s.buf.length 0 }
+
 /-- `sline_equal(sl, str)`; `str` = the rest of the object the pointer points
 into.  Second component: the `strlen` ran off the object. -/
 def equal (s : Sline) (str : List Byte) : Bool × Bool :=
@@ -194,12 +215,15 @@ deriving DecidableEq, Repr
 
 namespace Readline
 
-/-- `readline_init` (+ `readline_history_init` when `depth ≠ 0`; `uint8_t
-history_size` truncates the depth) / `igris::readline::init(cap, depth)` -/
+/-- `readline_init` (+ `readline_history_init` when `depth ≠ 0`) /
+`igris::readline::init(cap, depth)`.  After `fix: readline history indices are
+unsigned int` `history_size`, `headhist`, `curhist` hold any depth (they were
+`uint8_t`: depth 256 became 0, `% 0`); in C++ `history_size()` is
+`_history_space.size() / _buffer_space.size()` = depth for `cap ≥ 1`. -/
 def init (cap depth : Nat) : Readline :=
   { line := Sline.init cap, state := .normal, last := 0, lastsize := 0,
     hasHist := decide (depth ≠ 0), hist := List.replicate (cap * depth) 0,
-    hsize := depth % 256, headhist := 0, curhist := 0, hfault := false }
+    hsize := depth, headhist := 0, curhist := 0, hfault := false }
 
 /-- `readline_newline_reset` (with `fix: Ctrl-C also resets the escape state`) -/
 def newlineReset (rl : Readline) : Readline :=
@@ -237,7 +261,7 @@ def loadHistoryLine (rl : Readline) : Readline :=
 def historyUp (rl : Readline) : Readline × Nat :=
   if ¬ rl.hasHist then (rl, 0)
   else if rl.curhist = rl.hsize then (rl, 0)
-  else (({ rl with curhist := (rl.curhist + 1) % 256 }).loadHistoryLine, 1)
+  else (({ rl with curhist := rl.curhist + 1 }).loadHistoryLine, 1)
 
 /-- `readline_history_down` -/
 def historyDown (rl : Readline) : Readline × Nat :=
@@ -297,6 +321,19 @@ def putchar (rl : Readline) (c : Byte) : Readline × Int :=
       ({ rl with line := r.1, state := .wait7e, last := c }, if r.2 ≠ 0 then RL_DELETE else RL_NOTHING)
     else ({ rl with state := .normal, last := c }, RL_NOTHING)
   | .wait7e => ({ rl with state := .normal, last := c }, RL_NOTHING)
+
+/-- `readline_linecpy(rl, line, maxlen)` / `igris::readline::linecpy(data, size)`
+(after `fix: linecpy with a zero-sized destination writes nothing`): copies
+`min(len, maxlen - 1)` characters and the terminator into `dst` (the caller's
+object).  Result: new contents of `dst`, return value, an access left `dst` or
+the edit buffer.  (`(int)maxlen`: sizes below 2^31.) -/
+def linecpy (rl : Readline) (dst : List Byte) (maxlen : Nat) : List Byte × Int × Bool :=
+  if maxlen = 0 then (dst, 0, false)
+  else
+    let len : Nat := if maxlen - 1 > rl.line.len then rl.line.len else maxlen - 1
+    let m := mcpy dst 0 rl.line.buf 0 len
+    let w := wr m.1 len 0
+    (w.1, (len : Int), m.2 || w.2)
 
 /-- any index-checked access of the line or the history failed -/
 def faulted (rl : Readline) : Bool := rl.line.fault || rl.hfault
